@@ -1,44 +1,50 @@
-"""py2lean (circuit breaker): translate the Python AST of the breaker methods of CoherentFeedForwardLoop
+"""py2lean (circuit breaker): translate the Python AST of the breaker code of CoherentFeedForwardLoop
 (operon_ai/topology/loops.py, as it is NOW) into Lean definitions over the model's `Breaker` state, regenerated into
 lean/Operon/Gen/BreakerTranslated.lean on every run of the C08 check.
 
-Translated (each proved equal to the hand-written model function by `c08_translation_agrees_<name>`):
-  _check_circuit            -> Tr.check_circuit  cfg now b : Breaker × Bool     (state after, request let in?)
-  _record_success           -> Tr.record_success cfg now b : Breaker
-  _record_failure           -> Tr.record_failure cfg now b : Breaker
-  reset_circuit_breaker     -> Tr.reset_circuit_breaker cfg now b : Breaker
-  get_circuit_breaker_stats -> Tr.stats b : CState × Nat × Nat × Option Nat × Option Nat × Nat
-                               (the fields of CircuitBreakerStats in the order the dataclass declares them)
-  run(): the entry block `if self.enable_circuit_breaker: if not self._check_circuit(): … return`
+What is translated is found by CALL GRAPH from the public entry points, never by private method names:
+  run(): the entry block (the first top-level `if` whose test reads `self.enable_circuit_breaker`)
                             -> Tr.run_entry cfg now b : Breaker × Bool          (state after, request let in?)
-         the breaker-update block `if result.success and not result.blocked: … elif …: … else: …`
+         the method that block asks                      -> Tr.check_circuit  cfg now b : Breaker × Bool
+         the first statement of the `except` handler of the agent calls (a call of a breaker-writing method)
+                                                         -> Tr.record_failure cfg now b : Breaker
+         the breaker-update block (the top-level `if` after the gate that calls breaker-writing methods)
                             -> Tr.run_update cfg now b success blocked z y : Breaker
-         plus three structural facts about run(): the entry block precedes the cache lookup and the agents
-         (`Tr.run_entry_first`), the `except` handler of the agent calls starts with `self._record_failure()`
-         (`Tr.run_exception_records_failure`), and no other statement of run() calls a breaker method or writes a
-         breaker field (`Tr.run_other_breaker_sites`, a count).
+         the other breaker-writing method that block calls -> Tr.record_success cfg now b : Breaker
+  reset_circuit_breaker()   -> Tr.reset_circuit_breaker cfg now b : Breaker   (extra parameters take their defaults)
+  get_circuit_breaker_stats -> Tr.stats b  (the fields of CircuitBreakerStats in the order the dataclass declares them)
+  plus structural facts: the entry block precedes the cache lookup and the agents (`Tr.run_entry_first`); the handler
+  starts with the failure-recording call (`Tr.run_exception_records_failure`); no other statement of run() calls a
+  breaker-writing method or writes a breaker field (`Tr.run_other_breaker_sites`); no method outside the call graph of
+  the entry points writes a breaker field (`Tr.other_breaker_writers`).
+Each is proved equal to the hand-written model by `c08_translation_agrees_<name>`.
 
 Supported subset — nothing more:
-  * assignments / `+=` to `self.<breaker field>`; `with self._lock:` is transparent; `pass`; docstrings;
-  * `if/elif/else` over: comparisons (== != < <= > >=) on ints / enum members / verdict literals, `is None` /
-    `is not None`, `x in (a, b)` / `x not in (a, b)`, truthiness of an optional timestamp or of a bool, and / or / not;
+  * assignments / `+=` to `self.<breaker field>`; `with self._lock:` is transparent; `pass`; docstrings; annotations;
+  * `if/elif/else` (nested or as guard clauses with early `return`) over: comparisons (== != < <= > >=) on ints / enum
+    members / verdict literals, `is None` / `is not None`, `x in (…)` / `not in`, truthiness of an optional timestamp or
+    of a bool, and / or / not; `CONST_DICT.get(enum_value, default)` / `CONST_DICT[enum_value]`;
+  * class / module constants (`self._X`, `Class._X`, `_X`) are resolved to their VALUES through the imported module
+    (bool, int, enum member, verdict string, tuple of those, dict from enum members to bools) — fall-back: literal
+    class-level assignments read from the AST;
   * `datetime.now()` -> the model clock `now`; timestamp - timestamp -> microseconds (Int); comparison of such a
     difference (or its `.total_seconds()`) with `self.recovery_timeout` (or its `.total_seconds()`) -> integer
-    comparison in microseconds; the value of an optional timestamp may only be used to the right of an `and` whose
-    left operand tests that same attribute for truthiness / `is not None`;
-  * early `return` (of a bool expression, or of nothing);
-  * `self._record_success()` / `self._record_failure()` / `self._check_circuit()` -> the translated method;
-  * dropped: console `print`, `self._record_result(...)` (audit log; checked not to touch the breaker), local
-    `result = LoopResult(...)` — each only when its arguments are call-free —, and any `if` all of whose branches consist of dropped statements and whose test is
-    call-free (`if not self.silent: print(...)`).
-Anything else: the definition becomes `untranslatable "<construct (line)>"` (a default value), which makes the
-agreement theorem fail (fail closed).  Harmless rewrites inside the subset (reordered independent assignments,
-`elif` vs nested `if`, `!=` vs `not ==`, `.total_seconds()` on both sides, a membership test spelled as two
-comparisons, …) leave the theorems provable by the same proofs.
+    comparison in microseconds; the VALUE of an optional timestamp may only be used where a truthiness / `is not None`
+    test of the same attribute dominates (to the right of `and`, in the guarded branch, or after a guard clause);
+  * calls `self.m(...)` of private methods of the class, as statements or inside conditions, wherever they are defined
+    and whatever they are called: inlined (depth <= 6); parameters bound to the translated arguments or to their
+    defaults; an argument that cannot be translated (a message string, …) is opaque and may only reach no-ops;
+  * no-ops: console `print`, `logger.*` / `logging.*` calls, `self._record_result(...)` (audit log; checked not to
+    touch the breaker), a local bound to `LoopResult(...)` — each only when its arguments are free of calls other
+    than pure formatting (`.format`, `str`, `repr`, `type`, `len`, `.get`, `.total_seconds`, …) — and any `if` all of
+    whose branches are no-ops and whose test is free of other calls.
+Anything else: the definition becomes `untranslatable "<construct (line)>"` (a default value), which makes its
+agreement theorem fail (fail closed).
 """
 from __future__ import annotations
 
 import ast
+import enum
 from pathlib import Path
 
 CLASS = "CoherentFeedForwardLoop"
@@ -55,9 +61,10 @@ STATES = {"CLOSED": "CState.closed", "OPEN": "CState.opened", "HALF_OPEN": "CSta
 VERDICTS = {"EXECUTE": "Cls.execute", "PERMIT": "Cls.permit", "BLOCK": "Cls.block", "FAILURE": "Cls.failure"}
 STATS_FIELDS = {"state": "cstate", "failure_count": "nat", "success_count": "nat", "last_failure": "otime",
                 "last_success": "otime", "trips_count": "nat"}
-BREAKER_METHODS = {"_check_circuit", "_record_success", "_record_failure", "reset_circuit_breaker"}
-LEAN_NAME = {"_check_circuit": "check_circuit", "_record_success": "record_success",
-             "_record_failure": "record_failure", "reset_circuit_breaker": "reset_circuit_breaker"}
+PURE_FUNCS = {"str", "repr", "type", "len", "int", "float", "round", "bool", "format"}
+PURE_ATTRS = {"format", "get", "total_seconds", "isoformat", "join", "strip", "upper", "lower", "title"}
+ENTRY_POINTS = ["run", "reset_circuit_breaker", "get_circuit_breaker_stats"]
+MAX_DEPTH = 6
 
 
 class Unsupported(Exception):
@@ -73,17 +80,20 @@ def is_self(node, attr=None):
             and (attr is None or node.attr == attr))
 
 
-def self_call(node, name=None):
-    return (isinstance(node, ast.Call) and is_self(node.func) and (name is None or node.func.attr == name)
-            and not node.args and not node.keywords)
+def self_call(node):
+    return isinstance(node, ast.Call) and is_self(node.func)
 
 
-def has_call(node):
-    return any(isinstance(n, ast.Call) for n in ast.walk(node))
+def self_calls_in(node):
+    return [n for n in ast.walk(node) if self_call(n)]
+
+
+class Opaque:
+    """an argument the translator cannot represent (message strings …): legal only inside no-ops"""
 
 
 class Tr:
-    def __init__(self, src):
+    def __init__(self, src, cls_obj=None):
         tree = ast.parse(src)
         cls = [n for n in tree.body if isinstance(n, ast.ClassDef) and n.name == CLASS]
         if len(cls) != 1:
@@ -92,39 +102,96 @@ class Tr:
         st = [n for n in tree.body if isinstance(n, ast.ClassDef) and n.name == "CircuitBreakerStats"]
         self.stats_order = ([a.target.id for a in st[0].body if isinstance(a, ast.AnnAssign) and isinstance(a.target, ast.Name)]
                             if len(st) == 1 else None)
+        # constants: values through the imported class when available, else literal class / module level assignments
+        self.consts = {}
+        for body in (tree.body, cls[0].body):
+            for n in body:
+                if isinstance(n, ast.Assign) and len(n.targets) == 1 and isinstance(n.targets[0], ast.Name):
+                    try:
+                        self.consts[n.targets[0].id] = ast.literal_eval(n.value)
+                    except Exception:
+                        pass
+        if cls_obj is not None:
+            import sys
+            mod = sys.modules.get(cls_obj.__module__)
+            for k, v in list(vars(mod).items() if mod else []) + list(vars(cls_obj).items()):
+                if not k.startswith("__") and not callable(v) and not isinstance(v, (property, staticmethod, classmethod)):
+                    self.consts[k] = v
         self.mode = "unit"
-        self.check_record_result()
+        self.depth = 0
+        self.roles = {}           # python method name -> Tr.<role>
+        # which methods write breaker fields (directly or through calls)
+        direct = {m for m, fn in self.fns.items() if any(
+            is_self(x) and x.attr in FIELDS and isinstance(x.ctx, (ast.Store, ast.Del)) for x in ast.walk(fn))}
+        calls = {m: {c.func.attr for c in self_calls_in(fn)} for m, fn in self.fns.items()}
+        self.writers = set(direct)
+        changed = True
+        while changed:
+            changed = False
+            for m in self.fns:
+                if m not in self.writers and calls[m] & self.writers:
+                    self.writers.add(m)
+                    changed = True
+        self.calls = calls
+        self.direct_writers = direct
+        if "_record_result" in self.writers:
+            raise Unsupported("_record_result touches the breaker")
 
-    def check_record_result(self):
-        fn = self.fns.get("_record_result")
-        if fn is None:
-            return
-        for n in ast.walk(fn):
-            if is_self(n) and n.attr in FIELDS and isinstance(n.ctx, (ast.Store, ast.Del)):
-                raise Unsupported(f"_record_result writes self.{n.attr}")
-            if isinstance(n, ast.Call) and is_self(n.func) and n.func.attr in BREAKER_METHODS:
-                raise Unsupported(f"_record_result calls self.{n.func.attr}")
+    # ------------------------------------------------------------------------------------------ constants
+    def const(self, name, node):
+        if name not in self.consts:
+            bad(node, f"unknown name {name}")
+        return self.consts[name]
+
+    def const_name(self, n):
+        """`self._X` / `Class._X` / `_X` naming a constant (not a breaker field / config attribute)"""
+        if isinstance(n, ast.Attribute) and isinstance(n.value, ast.Name) and n.value.id in ("self", CLASS, "cls"):
+            if n.attr not in FIELDS and n.attr not in CFG and n.attr in self.consts:
+                return n.attr
+        if isinstance(n, ast.Name) and n.id in self.consts:
+            return n.id
+        return None
+
+    def pyval(self, v, node, env):
+        """python constant value -> (lean code, type)"""
+        if isinstance(v, bool):
+            return ("true" if v else "false"), "bool"
+        if isinstance(v, int) and v >= 0:
+            return f"({v} : Nat)", "nat"
+        if isinstance(v, enum.Enum) and type(v).__name__ == "CircuitState" and v.name in STATES:
+            return STATES[v.name], "cstate"
+        if isinstance(v, str) and v in VERDICTS and env.get("run"):
+            return VERDICTS[v], "cls"
+        if isinstance(v, (tuple, list, set, frozenset)):
+            return [self.pyval(e, node, env) for e in (sorted(v, key=repr) if isinstance(v, (set, frozenset)) else v)], "tuple"
+        if isinstance(v, dict):
+            return v, "dict"
+        bad(node, f"constant value {v!r:.40}")
 
     # ------------------------------------------------------------------------------------------ values
     def val(self, n, env):
         """value expression -> (lean code, type)"""
         if isinstance(n, ast.Constant):
-            if isinstance(n.value, bool):
-                return ("true" if n.value else "false"), "bool"
-            if isinstance(n.value, int) and n.value >= 0:
-                return f"({n.value} : Nat)", "nat"
-            if isinstance(n.value, str) and n.value in VERDICTS and env.get("run"):
-                return VERDICTS[n.value], "cls"
-            bad(n, f"constant {n.value!r}")
-        if is_self(n):
-            if n.attr in FIELDS:
-                lean, t = FIELDS[n.attr]
-                if t == "otime" and lean in env["bound"]:
-                    return env["bound"][lean], "time"
-                return f"b.{lean}", t
-            if n.attr in CFG:
-                return CFG[n.attr]
-            bad(n, f"self.{n.attr}")
+            if n.value is None:
+                return "none", "none"
+            return self.pyval(n.value, n, env)
+        if isinstance(n, ast.Name) and n.id in env["locals"]:
+            v = env["locals"][n.id]
+            if v is Opaque:
+                bad(n, f"use of the opaque argument {n.id}")
+            return v
+        if is_self(n) and n.attr in FIELDS:
+            lean, t = FIELDS[n.attr]
+            if t == "otime" and lean in env["bound"]:
+                return env["bound"][lean], "time"
+            return f"b.{lean}", t
+        if is_self(n) and n.attr in CFG:
+            return CFG[n.attr]
+        cn = self.const_name(n)
+        if cn is not None:
+            return self.pyval(self.const(cn, n), n, env)
+        if isinstance(n, (ast.Tuple, ast.List, ast.Set)):
+            return [self.val(e, env) for e in n.elts], "tuple"
         if (isinstance(n, ast.Attribute) and isinstance(n.value, ast.Name) and n.value.id == "CircuitState"
                 and n.attr in STATES):
             return STATES[n.attr], "cstate"
@@ -137,6 +204,13 @@ class Tr:
             if t != "dur":
                 bad(n, f"total_seconds() of a {t}")
             return c, "secs"
+        # CONST_DICT.get(key, default)  /  CONST_DICT[key]
+        if (isinstance(n, ast.Call) and isinstance(n.func, ast.Attribute) and n.func.attr == "get"
+                and self.const_name(n.func.value) and len(n.args) in (1, 2) and not n.keywords):
+            return self.lookup(n, self.const(self.const_name(n.func.value), n), n.args[0],
+                               n.args[1] if len(n.args) == 2 else ast.Constant(value=None), env)
+        if isinstance(n, ast.Subscript) and self.const_name(n.value):
+            return self.lookup(n, self.const(self.const_name(n.value), n), n.slice, None, env)
         if isinstance(n, ast.BinOp) and isinstance(n.op, ast.Sub):
             (a, ta), (b, tb) = self.val(n.left, env), self.val(n.right, env)
             if ta == "time" and tb == "time":
@@ -155,9 +229,29 @@ class Tr:
                  ("z_out", "action_type"): ("z", "cls"), ("y_out", "action_type"): ("y", "cls")}
             if key in m:
                 return m[key]
-        if isinstance(n, ast.Name) and n.id in env["locals"]:
-            return env["locals"][n.id]
         bad(n, f"expression {ast.unparse(n)[:60]}")
+
+    def lookup(self, node, d, key, default, env):
+        if not isinstance(d, dict) or not d:
+            bad(node, "lookup in something that is not a constant dict")
+        kc, kt = self.val(key, env)
+        items = [(self.pyval(k, node, env), self.pyval(v, node, env)) for k, v in d.items()]
+        vt = {t for (_, (_, t)) in items}
+        if any(t != kt for ((_, t), _) in items) or len(vt) != 1 or kt != "cstate":
+            bad(node, "dict lookup with keys / values of unsupported types")
+        vt = vt.pop()
+        if default is None or (isinstance(default, ast.Constant) and default.value is None):
+            if {c for ((c, _), _) in items} != set(STATES.values()):
+                bad(node, "dict lookup without default on an incomplete dict")
+            dc = items[-1][1][0]
+        else:
+            dc, dt = self.val(default, env)
+            if dt != vt:
+                bad(node, "dict lookup default of another type")
+        code = dc
+        for ((k, _), (v, _)) in reversed(items):
+            code = f"(if decide ({kc} = {k}) then {v} else {code})"
+        return code, vt
 
     def num2(self, a, b, node):
         (ca, ta), (cb, tb) = a, b
@@ -169,22 +263,28 @@ class Tr:
         bad(node, f"comparison of {ta} with {tb}")
 
     # ------------------------------------------------------------------------------------------ conditions
-    def truthy_opt(self, n, env):
-        """if `n` tests an optional timestamp attribute for presence, its lean field"""
+    def opt_test(self, n, env):
+        """(lean field, positive?) if `n` tests an optional timestamp attribute for presence / absence"""
         if is_self(n) and n.attr in FIELDS and FIELDS[n.attr][1] == "otime" and FIELDS[n.attr][0] not in env["bound"]:
-            return FIELDS[n.attr][0]
-        if (isinstance(n, ast.Compare) and len(n.ops) == 1 and isinstance(n.ops[0], ast.IsNot)
+            return FIELDS[n.attr][0], True
+        if isinstance(n, ast.UnaryOp) and isinstance(n.op, ast.Not):
+            r = self.opt_test(n.operand, env)
+            return (r[0], not r[1]) if r else None
+        if (isinstance(n, ast.Compare) and len(n.ops) == 1 and isinstance(n.ops[0], (ast.Is, ast.IsNot))
                 and isinstance(n.comparators[0], ast.Constant) and n.comparators[0].value is None):
-            return self.truthy_opt(n.left, env)
+            r = self.opt_test(n.left, env)
+            if r and r[1]:
+                return r[0], isinstance(n.ops[0], ast.IsNot)
         return None
 
     def cond(self, n, env):
-        """boolean expression -> lean code of type Bool"""
+        """call-free boolean expression -> lean code of type Bool"""
         if isinstance(n, ast.BoolOp):
             vals = list(n.values)
             if isinstance(n.op, ast.And):
-                f = self.truthy_opt(vals[0], env)
-                if f is not None and len(vals) >= 2:
+                r = self.opt_test(vals[0], env)
+                if r is not None and r[1] and len(vals) >= 2:
+                    f = r[0]
                     env2 = dict(env, bound=dict(env["bound"], **{f: f"t_{f}"}))
                     rest = vals[1] if len(vals) == 2 else ast.BoolOp(op=ast.And(), values=vals[1:])
                     return f"(match b.{f} with | some t_{f} => {self.cond(rest, env2)} | none => false)"
@@ -197,19 +297,22 @@ class Tr:
                 bad(n, "chained comparison")
             op, l, r = n.ops[0], n.left, n.comparators[0]
             if isinstance(op, (ast.Is, ast.IsNot)):
-                if not (isinstance(r, ast.Constant) and r.value is None):
-                    bad(n, "`is` with something other than None")
-                c, t = self.val(l, dict(env, bound={}))
-                if t != "otime":
-                    bad(n, f"`is None` on a {t}")
-                return f"{c}.isNone" if isinstance(op, ast.Is) else f"{c}.isSome"
+                if isinstance(r, ast.Constant) and r.value is None:
+                    c, t = self.val(l, dict(env, bound={}))
+                    if t != "otime":
+                        bad(n, f"`is None` on a {t}")
+                    return f"{c}.isNone" if isinstance(op, ast.Is) else f"{c}.isSome"
+                a, b = self.val(l, env), self.val(r, env)
+                if a[1] == b[1] == "cstate":       # identity of enum members is equality
+                    return f"decide ({a[0]} = {b[0]})" if isinstance(op, ast.Is) else f"(!decide ({a[0]} = {b[0]}))"
+                bad(n, "`is` on something other than None / enum members")
             if isinstance(op, (ast.In, ast.NotIn)):
-                if not isinstance(r, (ast.Tuple, ast.List, ast.Set)) or not r.elts:
-                    bad(n, "membership in something other than a literal tuple")
                 (cl, tl) = self.val(l, env)
+                elts, tt = self.val(r, env)
+                if tt != "tuple" or not elts:
+                    bad(n, "membership in something other than a tuple of constants")
                 parts = []
-                for e in r.elts:
-                    ce, te = self.val(e, env)
+                for (ce, te) in elts:
                     if te != tl or tl not in ("cls", "cstate", "nat"):
                         bad(n, f"membership of a {tl} among {te}")
                     parts.append(f"decide ({cl} = {ce})")
@@ -227,8 +330,6 @@ class Tr:
             if sym is None:
                 bad(n, f"comparison {type(op).__name__}")
             return f"decide ({ca} {sym} {cb})"
-        if self_call(n):
-            bad(n, f"call self.{n.func.attr}() inside a condition")
         c, t = self.val(n, dict(env, bound={}))
         if t == "bool":
             return c
@@ -236,25 +337,120 @@ class Tr:
             return f"{c}.isSome"
         bad(n, f"truthiness of a {t}")
 
+    def branch(self, test, env, ind, then_k, else_k):
+        """`if test: then_k else: else_k` where the test may call private methods (short-circuit order kept) and may
+        guard the value of an optional timestamp for the branch it dominates"""
+        pad = "  " * ind
+        if isinstance(test, ast.UnaryOp) and isinstance(test.op, ast.Not) and (self_calls_in(test) or self.opt_test(test.operand, env)):
+            return self.branch(test.operand, env, ind, else_k, then_k)
+        if isinstance(test, ast.BoolOp) and self_calls_in(test):
+            first = test.values[0]
+            rest = test.values[1] if len(test.values) == 2 else ast.BoolOp(op=test.op, values=test.values[1:])
+            if isinstance(test.op, ast.And):
+                return self.branch(first, env, ind, lambda e, i: self.branch(rest, e, i, then_k, else_k), else_k)
+            return self.branch(first, env, ind, then_k, lambda e, i: self.branch(rest, e, i, then_k, else_k))
+        if self_call(test):
+            head = self.call_code(test, env, ind, "bool")
+            return (f"{head}{pad}let b : Breaker := r.1\n{pad}if r.2 then\n{then_k(env, ind + 1)}\n"
+                    f"{pad}else\n{else_k(env, ind + 1)}")
+        if self_calls_in(test):
+            bad(test, "call of a method inside a comparison")
+        r = self.opt_test(test, env)
+        if r is not None:
+            f, pos = r
+            env2 = dict(env, bound=dict(env["bound"], **{f: f"t_{f}"}))
+            some_k, none_k = (then_k, else_k) if pos else (else_k, then_k)
+            return (f"{pad}match b.{f} with\n{pad}| some t_{f} =>\n{some_k(env2, ind + 1)}\n"
+                    f"{pad}| none =>\n{none_k(env, ind + 1)}")
+        return f"{pad}if {self.cond(test, env)} then\n{then_k(env, ind + 1)}\n{pad}else\n{else_k(env, ind + 1)}"
+
+    # ------------------------------------------------------------------------------------------ calls of private methods
+    def bind(self, call, fn, env):
+        a = fn.args
+        if a.vararg or a.kwarg or a.posonlyargs or fn.decorator_list:
+            bad(fn, f"signature of {fn.name}")
+        names = [x.arg for x in a.args[1:]] + [x.arg for x in a.kwonlyargs]
+        defaults = dict(zip([x.arg for x in a.args[1:]][len(a.args) - 1 - len(a.defaults):], a.defaults))
+        defaults.update({x.arg: d for x, d in zip(a.kwonlyargs, a.kw_defaults) if d is not None})
+        given = {}
+        if call is not None:
+            for i, x in enumerate(call.args):
+                if i >= len(a.args) - 1 or isinstance(x, ast.Starred):
+                    bad(call, "arguments")
+                given[a.args[1 + i].arg] = x
+            for k in call.keywords:
+                if k.arg is None or k.arg in given or k.arg not in names:
+                    bad(call, "keyword arguments")
+                given[k.arg] = k.value
+        locs = {}
+        for nm in names:
+            src = given.get(nm, defaults.get(nm))
+            if src is None:
+                bad(call or fn, f"no value for parameter {nm}")
+            try:
+                locs[nm] = self.val(src, env if nm in given else {"bound": {}, "locals": {}})
+            except Unsupported:
+                if self_calls_in(src) or not self.pure(src):
+                    raise
+                locs[nm] = Opaque
+        return locs
+
+    def call_code(self, call, env, ind, mode):
+        """`let b := …` (statement, mode unit) or `let r := …` (condition, mode bool) for a call self.m(args)"""
+        pad = "  " * ind
+        name = call.func.attr
+        fn = self.fns.get(name)
+        if fn is None:
+            bad(call, f"call of self.{name} (not a method of the class)")
+        if name in self.roles and not call.args and not call.keywords:
+            tgt = "b : Breaker" if mode == "unit" else "r : Breaker × Bool"
+            return f"{pad}let {tgt} := Tr.{self.roles[name]} cfg now b\n"
+        if self.depth >= MAX_DEPTH:
+            bad(call, "call depth")
+        locs = self.bind(call, fn, env)
+        saved = self.mode
+        self.mode, self.depth = mode, self.depth + 1
+        try:
+            inner = self.body(list(fn.body), {"bound": {}, "locals": locs, "run": False}, ind + 1)
+        finally:
+            self.mode, self.depth = saved, self.depth - 1
+        tgt = "b : Breaker" if mode == "unit" else "r : Breaker × Bool"
+        return f"{pad}let {tgt} := (\n{inner})\n"
+
     # ------------------------------------------------------------------------------------------ statements
-    def dropped(self, st):
+    def pure(self, e):
+        """free of calls other than pure formatting"""
+        for n in ast.walk(e):
+            if isinstance(n, ast.Call):
+                f = n.func
+                if isinstance(f, ast.Name) and f.id in PURE_FUNCS:
+                    continue
+                if isinstance(f, ast.Attribute) and f.attr in PURE_ATTRS and not is_self(f):
+                    continue
+                return False
+        return True
+
+    def noop(self, st):
         if isinstance(st, ast.Pass):
             return True
         if isinstance(st, ast.Expr) and isinstance(st.value, ast.Constant) and isinstance(st.value.value, str):
             return True
         if isinstance(st, ast.Expr) and isinstance(st.value, ast.Call):
             f = st.value.func
-            pure_args = not any(has_call(a) for a in st.value.args) and not any(has_call(k.value) for k in st.value.keywords)
+            pure_args = all(self.pure(a) for a in st.value.args) and all(self.pure(k.value) for k in st.value.keywords)
             if isinstance(f, ast.Name) and f.id == "print" and pure_args:
                 return True
             if is_self(f, "_record_result") and pure_args:
                 return True
+            if (isinstance(f, ast.Attribute) and isinstance(f.value, ast.Name) and f.value.id in ("logger", "logging", "log", "_logger", "LOGGER")
+                    and pure_args):
+                return True
         if (isinstance(st, ast.Assign) and len(st.targets) == 1 and isinstance(st.targets[0], ast.Name)
                 and isinstance(st.value, ast.Call) and isinstance(st.value.func, ast.Name) and st.value.func.id == "LoopResult"
-                and not any(has_call(a) for a in st.value.args) and not any(has_call(k.value) for k in st.value.keywords)):
+                and all(self.pure(a) for a in st.value.args) and all(self.pure(k.value) for k in st.value.keywords)):
             return True
-        if isinstance(st, ast.If) and not has_call(st.test):
-            return all(self.dropped(x) for x in st.body) and all(self.dropped(x) for x in st.orelse)
+        if isinstance(st, ast.If) and self.pure(st.test):
+            return all(self.noop(x) for x in st.body) and all(self.noop(x) for x in st.orelse)
         return False
 
     def finish(self, node=None):
@@ -269,7 +465,7 @@ class Tr:
         if not stmts:
             return pad + self.finish()
         st, rest = stmts[0], stmts[1:]
-        if self.dropped(st):
+        if self.noop(st):
             return self.body(rest, env, ind)
         if isinstance(st, ast.With):
             if len(st.items) != 1 or not is_self(st.items[0].context_expr, "_lock") or st.items[0].optional_vars:
@@ -285,21 +481,14 @@ class Tr:
             if self.mode == "bool":
                 if st.value is None:
                     bad(st, "bare return in a method that returns a bool")
+                if self_calls_in(st.value):
+                    return self.branch(st.value, env, ind, lambda e, i: "  " * i + "(b, true)", lambda e, i: "  " * i + "(b, false)")
                 return pad + f"(b, {self.cond(st.value, env)})"
             if self.mode == "stats":
-                return pad + self.stats(st)
+                return pad + self.stats(st, env)
         if isinstance(st, ast.If):
-            t = st.test
-            neg = isinstance(t, ast.UnaryOp) and isinstance(t.op, ast.Not)
-            inner = t.operand if neg else t
-            if self_call(inner, "_check_circuit"):
-                c = "(!r.2)" if neg else "r.2"
-                head = f"{pad}let r := Tr.check_circuit cfg now b\n{pad}let b : Breaker := r.1\n"
-            else:
-                c = self.cond(t, env)
-                head = ""
-            return (f"{head}{pad}if {c} then\n{self.body(list(st.body) + rest, env, ind + 1)}\n"
-                    f"{pad}else\n{self.body(list(st.orelse) + rest, env, ind + 1)}")
+            return self.branch(st.test, env, ind, lambda e, i: self.body(list(st.body) + rest, e, i),
+                               lambda e, i: self.body(list(st.orelse) + rest, e, i))
         if isinstance(st, (ast.Assign, ast.AugAssign)):
             tgt = st.targets[0] if isinstance(st, ast.Assign) and len(st.targets) == 1 else getattr(st, "target", None)
             if tgt is None or not is_self(tgt) or tgt.attr not in FIELDS:
@@ -315,22 +504,23 @@ class Tr:
             else:
                 c, t = self.val(st.value, dict(env, bound={}))
                 if ft == "otime":
-                    rhs = {"time": f"some {c}", "otime": c}.get(t)
-                    if isinstance(st.value, ast.Constant) and st.value.value is None:
-                        rhs = "none"
+                    rhs = {"time": f"some {c}", "otime": c, "none": "none"}.get(t)
                     if rhs is None:
                         bad(st, f"assignment of a {t} to an optional timestamp")
                 elif t == ft:
                     rhs = c
                 else:
                     bad(st, f"assignment of a {t} to a {ft} field")
-            return f"{pad}let b : Breaker := {{ b with {lean} := {rhs} }}\n{self.body(rest, env, ind)}"
-        if isinstance(st, ast.Expr) and self_call(st.value) and st.value.func.attr in ("_record_success", "_record_failure"):
-            return (f"{pad}let b : Breaker := Tr.{LEAN_NAME[st.value.func.attr]} cfg now b\n"
-                    f"{self.body(rest, env, ind)}")
+            env2 = env
+            if ft == "otime" and lean in env["bound"]:
+                env2 = dict(env, bound={k: v for k, v in env["bound"].items() if k != lean})
+            return f"{pad}let b : Breaker := {{ b with {lean} := {rhs} }}\n{self.body(rest, env2, ind)}"
+        if isinstance(st, ast.Expr) and self_call(st.value):
+            # the value of an optional seen before the call may be stale afterwards
+            return self.call_code(st.value, env, ind, "unit") + self.body(rest, dict(env, bound={}), ind)
         bad(st, f"statement {ast.unparse(st).splitlines()[0][:60]}")
 
-    def stats(self, st):
+    def stats(self, st, env):
         v = st.value
         if not (isinstance(v, ast.Call) and isinstance(v.func, ast.Name) and v.func.id == "CircuitBreakerStats"):
             bad(st, "get_circuit_breaker_stats does not return CircuitBreakerStats(...)")
@@ -345,10 +535,9 @@ class Tr:
             given[k.arg] = k.value
         if set(given) != set(STATS_FIELDS):
             bad(st, f"CircuitBreakerStats built from {sorted(given)}")
-        env = {"bound": {}, "locals": {}}
         parts = []
         for name in self.stats_order:
-            c, t = self.val(given[name], env)
+            c, t = self.val(given[name], dict(env, bound={}))
             if t != STATS_FIELDS[name]:
                 bad(st, f"{name} given a {t}")
             parts.append(c)
@@ -359,80 +548,106 @@ class Tr:
         fn = self.fns.get(name)
         if fn is None:
             raise Unsupported(f"method {name} not found")
-        a = fn.args
-        if len(a.args) != 1 or a.vararg or a.kwarg or a.kwonlyargs or a.posonlyargs or fn.decorator_list:
-            bad(fn, f"signature of {name}")
-        self.mode = mode
-        return self.body(list(fn.body), {"bound": {}, "locals": {}}, 1)
+        locs = self.bind(None, fn, {"bound": {}, "locals": {}})
+        self.mode, self.depth = mode, 0
+        return self.body(list(fn.body), {"bound": {}, "locals": locs}, 1)
 
     # ------------------------------------------------------------------------------------------ run()
     def touches_breaker(self, node):
         n = 0
         for x in ast.walk(node):
-            if isinstance(x, ast.Call) and is_self(x.func) and x.func.attr in BREAKER_METHODS:
+            if self_call(x) and x.func.attr in self.writers:
                 n += 1
             if is_self(x) and x.attr in FIELDS and isinstance(x.ctx, (ast.Store, ast.Del)):
                 n += 1
         return n
 
-    def run_parts(self):
+    def analyse_run(self):
+        """locate the blocks of run() and resolve the roles of the private methods by call graph"""
         fn = self.fns.get("run")
         if fn is None:
             raise Unsupported("run not found")
         body = list(fn.body)
-        entry = [i for i, s in enumerate(body) if isinstance(s, ast.If) and is_self(s.test, "enable_circuit_breaker")]
-        update = [i for i, s in enumerate(body) if isinstance(s, ast.If) and any(
-            isinstance(x, ast.Call) and is_self(x.func) and x.func.attr in ("_record_success", "_record_failure")
-            for x in ast.walk(s)) and i not in entry]
+        reads_flag = lambda t: any(is_self(x, "enable_circuit_breaker") for x in ast.walk(t))
+        entry = [i for i, s in enumerate(body) if isinstance(s, ast.If) and reads_flag(s.test)]
+        update = [i for i, s in enumerate(body) if isinstance(s, ast.If) and i not in entry and self.touches_breaker(s)]
         tries = [i for i, s in enumerate(body) if isinstance(s, ast.Try)]
+        info = {"body": body, "entry": entry, "update": update, "tries": tries}
+        # record_failure: first statement of the handler
+        rf = None
+        if len(tries) == 1:
+            hs = body[tries[0]].handlers
+            if (len(hs) == 1 and hs[0].body and isinstance(hs[0].body[0], ast.Expr) and self_call(hs[0].body[0].value)
+                    and not hs[0].body[0].value.args and not hs[0].body[0].value.keywords
+                    and hs[0].body[0].value.func.attr in self.writers):
+                rf = hs[0].body[0].value.func.attr
+        info["rf"] = rf
+        # record_success: the other writer called in the update block
+        rs = None
+        if len(update) == 1:
+            names = {c.func.attr for c in self_calls_in(body[update[0]]) if c.func.attr in self.writers} - {rf}
+            if len(names) == 1:
+                rs = names.pop()
+        info["rs"] = rs
+        # check_circuit: the method the entry block asks
+        cc = None
+        if len(entry) == 1:
+            tests = [x.test for x in ast.walk(body[entry[0]]) if isinstance(x, ast.If)]
+            names = {c.func.attr for t in tests for c in self_calls_in(t)}
+            if len(names) == 1:
+                cc = names.pop()
+        info["cc"] = cc
+        return info
+
+    def run_parts(self, info):
+        body, entry, update, tries = info["body"], info["entry"], info["update"], info["tries"]
         res = {}
-        # entry block
         try:
             if len(entry) != 1:
-                raise Unsupported(f"{len(entry)} statements `if self.enable_circuit_breaker:` in run()")
-            e = body[entry[0]]
-            if e.orelse:
-                bad(e, "else-branch on the breaker entry block")
-            self.mode = "entry"
-            res["entry"] = self.body([e], {"bound": {}, "locals": {}, "run": True}, 1)
+                raise Unsupported(f"{len(entry)} statements testing self.enable_circuit_breaker at the top level of run()")
+            if body[entry[0]].orelse:
+                bad(body[entry[0]], "else-branch on the breaker entry block")
+            self.mode, self.depth = "entry", 0
+            res["entry"] = self.body([body[entry[0]]], {"bound": {}, "locals": {}, "run": True}, 1)
         except Unsupported as ex:
             res["entry"] = ex
-        # update block
         try:
             if len(update) != 1:
                 raise Unsupported(f"{len(update)} breaker-update statements at the top level of run()")
-            self.mode = "update"
+            self.mode, self.depth = "update", 0
             res["update"] = self.body([body[update[0]]], {"bound": {}, "locals": {}, "run": True}, 1)
         except Unsupported as ex:
             res["update"] = ex
-        # structure
         first = False
         if len(entry) == 1:
             before = body[:entry[0]]
-            first = all(isinstance(s, (ast.Import, ast.ImportFrom)) or self.dropped(s)
+            first = all(isinstance(s, (ast.Import, ast.ImportFrom)) or self.noop(s)
                         or (isinstance(s, ast.Assign) and not self.touches_breaker(s) and "self" not in ast.unparse(s.value)
                             and all(isinstance(t, ast.Name) for t in s.targets))
                         or (isinstance(s, ast.AugAssign) and is_self(s.target, "_total_requests"))
                         for s in before)
         res["entry_first"] = first
-        handler_ok = False
         others = 0
         for i, s in enumerate(body):
             if i in entry or i in update:
                 continue
-            if isinstance(s, ast.Try) and len(tries) == 1:
-                hs = s.handlers
-                if (len(hs) == 1 and hs[0].body and isinstance(hs[0].body[0], ast.Expr)
-                        and self_call(hs[0].body[0].value, "_record_failure")):
-                    handler_ok = True
-                    others += sum(self.touches_breaker(x) for x in hs[0].body[1:])
-                else:
-                    others += sum(self.touches_breaker(h) for h in hs)
+            if isinstance(s, ast.Try) and len(tries) == 1 and info["rf"] is not None:
+                h = s.handlers[0]
+                others += sum(self.touches_breaker(x) for x in h.body[1:])
                 others += sum(self.touches_breaker(x) for x in s.body + s.orelse + s.finalbody)
             else:
                 others += self.touches_breaker(s)
-        res["handler"] = handler_ok
+        res["handler"] = info["rf"] is not None
         res["others"] = others
+        # methods outside the call graph of the entry points that write breaker fields
+        reach, todo = set(), list(ENTRY_POINTS)
+        while todo:
+            m = todo.pop()
+            if m in reach or m not in self.fns:
+                continue
+            reach.add(m)
+            todo.extend(self.calls.get(m, ()))
+        res["outside_writers"] = sorted(m for m in self.direct_writers if m not in reach and m != "__init__")
         return res
 
 
@@ -440,23 +655,25 @@ def esc(e):
     return str(e).replace('"', "'").replace("\\", "/")
 
 
-def render(src: str):
+def render(src: str, cls_obj=None):
     info = {"unsupported": {}}
     out = ("import Operon.Model.Cffl\n"
            "/- GENERATED by harness/vf/extract/py2lean_breaker.py from operon_ai/topology/loops.py on every run; do not edit.\n"
-           "   Each definition is the translation of the Python method / block of the same name (see the translator for\n"
-           "   the supported subset).  `untranslatable \"...\"` marks one that left the subset: its agreement theorem\n"
+           "   Each definition is the translation of the Python method / block named in its doc comment (found by call\n"
+           "   graph from run / reset_circuit_breaker / get_circuit_breaker_stats; see the translator for the supported\n"
+           "   subset).  `untranslatable \"...\"` marks one that left the subset: its agreement theorem\n"
            "   c08_translation_agrees_<name> then fails. -/\n"
            "namespace Operon.Cffl\nset_option linter.unusedVariables false\n\n")
     try:
-        tr = Tr(src)
+        tr = Tr(src, cls_obj)
+        ri = tr.analyse_run()
         glob = None
     except (Unsupported, SyntaxError) as e:
-        tr, glob = None, e
+        tr, ri, glob = None, None, e
 
     def emit(name, sig, what, fn):
         nonlocal out
-        out += f"/-- translation of `{what}` -/\ndef Tr.{name} {sig} :=\n"
+        out += f"/-- translation of {what} -/\ndef Tr.{name} {sig} :=\n"
         try:
             if tr is None:
                 raise Unsupported(str(glob))
@@ -468,39 +685,68 @@ def render(src: str):
             info["unsupported"][name] = str(e)
             out += f'  untranslatable "{esc(e)}"\n\n'
 
+    def role(py, why):
+        if py is None:
+            raise Unsupported(why)
+        return py
+
     P = "(cfg : Cfg) (now : Nat) (b : Breaker)"
-    # callees first
-    emit("record_success", f"{P} : Breaker", "_record_success", lambda: tr.method("_record_success", "unit"))
-    emit("record_failure", f"{P} : Breaker", "_record_failure", lambda: tr.method("_record_failure", "unit"))
-    emit("check_circuit", f"{P} : Breaker × Bool", "_check_circuit", lambda: tr.method("_check_circuit", "bool"))
-    emit("reset_circuit_breaker", f"{P} : Breaker", "reset_circuit_breaker",
+    rs, rf, cc = (ri["rs"], ri["rf"], ri["cc"]) if ri else (None, None, None)
+    emit("record_success", f"{P} : Breaker", f"`{rs}` (the success-recording method the update block of run() calls)",
+         lambda: tr.method(role(rs, "no single success-recording method is called by the update block of run()"), "unit"))
+    emit("record_failure", f"{P} : Breaker", f"`{rf}` (called first in the except handler of run())",
+         lambda: tr.method(role(rf, "the except handler of run() does not start with a call of a breaker-writing method"), "unit"))
+    emit("check_circuit", f"{P} : Breaker × Bool", f"`{cc}` (the method the entry block of run() asks)",
+         lambda: tr.method(role(cc, "the entry block of run() does not ask exactly one method"), "bool"))
+    if tr is not None:     # from here on calls of these three are references, everything else is inlined
+        tr.roles = {py: nm for py, nm in ((rs, "record_success"), (rf, "record_failure"), (cc, "check_circuit"))
+                    if py is not None and nm not in info["unsupported"]}
+    emit("reset_circuit_breaker", f"{P} : Breaker", "`reset_circuit_breaker`",
          lambda: tr.method("reset_circuit_breaker", "unit"))
-    emit("stats", "(b : Breaker) : CState × Nat × Nat × Option Nat × Option Nat × Nat", "get_circuit_breaker_stats",
+    emit("stats", "(b : Breaker) : CState × Nat × Nat × Option Nat × Option Nat × Nat", "`get_circuit_breaker_stats`",
          lambda: tr.method("get_circuit_breaker_stats", "stats"))
-    parts = None
     if tr is not None:
         try:
-            parts = tr.run_parts()
+            parts = tr.run_parts(ri)
         except Unsupported as e:
-            parts = {"entry": e, "update": e, "entry_first": False, "handler": False, "others": 999}
+            parts = {"entry": e, "update": e, "entry_first": False, "handler": False, "others": 999, "outside_writers": ["?"]}
     else:
         parts = {"entry": Unsupported(str(glob)), "update": Unsupported(str(glob)), "entry_first": False,
-                 "handler": False, "others": 999}
-    emit("run_entry", f"{P} : Breaker × Bool", "run(): `if self.enable_circuit_breaker: …` (state after, let in?)",
-         lambda: parts["entry"])
+                 "handler": False, "others": 999, "outside_writers": ["?"]}
+    emit("run_entry", f"{P} : Breaker × Bool", "run(): the entry block (state after, let in?)", lambda: parts["entry"])
     emit("run_update", f"{P} (success blocked : Bool) (z y : Cls) : Breaker",
          "run(): the breaker-update block after the gate", lambda: parts["update"])
     b = lambda x: "true" if x else "false"
     out += ("/-- the entry block precedes everything in run() except imports, the start-time local and the request counter -/\n"
             f"def Tr.run_entry_first : Bool := {b(parts['entry_first'])}\n\n"
-            "/-- the `except` handler of the two agent calls starts with `self._record_failure()` -/\n"
+            "/-- the `except` handler of the two agent calls starts with the failure-recording call -/\n"
             f"def Tr.run_exception_records_failure : Bool := {b(parts['handler'])}\n\n"
-            "/-- breaker-method calls / breaker-field writes in run() outside the entry block, the handler's first statement\n"
+            "/-- breaker-writing calls / breaker-field writes in run() outside the entry block, the handler's first statement\n"
             "    and the update block -/\n"
-            f"def Tr.run_other_breaker_sites : Nat := {parts['others']}\n\n")
+            f"def Tr.run_other_breaker_sites : Nat := {parts['others']}\n\n"
+            f"/-- methods outside the call graph of the entry points that write a breaker field: {esc(parts['outside_writers'])} -/\n"
+            f"def Tr.other_breaker_writers : Nat := {len(parts['outside_writers'])}\n\n")
     out += "end Operon.Cffl\n"
-    info["structure"] = {k: parts[k] for k in ("entry_first", "handler", "others")}
+    info["structure"] = {k: parts[k] for k in ("entry_first", "handler", "others", "outside_writers")}
+    info["roles"] = {"record_success": rs, "record_failure": rf, "check_circuit": cc}
     return out, info
+
+
+def load_class(repo: Path):
+    """the class object of the tree under test, if it is (or can be) imported from there"""
+    try:
+        import importlib
+        import sys
+        mod = sys.modules.get("operon_ai.topology.loops")
+        if mod is None:
+            if str(repo) not in sys.path:
+                sys.path.insert(0, str(repo))
+            mod = importlib.import_module("operon_ai.topology.loops")
+        if not str(Path(mod.__file__).resolve()).startswith(str(Path(repo).resolve())):
+            return None
+        return getattr(mod, CLASS, None)
+    except Exception:
+        return None
 
 
 def run(repo: Path, lean_dir: Path, write_if_changed) -> list[dict]:
@@ -508,15 +754,17 @@ def run(repo: Path, lean_dir: Path, write_if_changed) -> list[dict]:
         src = (Path(repo) / REL).read_text()
     except OSError:
         src = ""
-    text, info = render(src)
+    text, info = render(src, load_class(Path(repo)))
     changed = write_if_changed(Path(lean_dir) / OUT, text)
     return [{"id": "py2lean-breaker", "file": OUT, "facts_changed": bool(changed), "unsupported": info["unsupported"],
-             "structure": info.get("structure")}]
+             "structure": info.get("structure"), "roles": info.get("roles")}]
 
 
 if __name__ == "__main__":
     import sys
+    import warnings
+    warnings.filterwarnings("ignore")
     root = Path(sys.argv[1] if len(sys.argv) > 1 else "/repo")
-    t, i = render((root / REL).read_text())
+    t, i = render((root / REL).read_text(), load_class(root))
     print(t)
     print(i, file=sys.stderr)
